@@ -122,6 +122,10 @@ def reference(spec, nums, r, st):
         v = RR.start_prop_value(th, tgt, dmin)
     else:
         w = st['speed'][r['tach']]
+        if abs(w) > 1e3 * w0:
+            # a drivetrain driven thousands of times beyond its no-load speed (diverging run): the root of the current law cancels
+            # catastrophically there, the comparison would judge rounding, not the rule
+            return ('skip', None)
         v = RR.limit_current_duty(i0, imax, w0, w, q(r['limit']))
         if v is None:
             return ('skip', None)
